@@ -9,64 +9,64 @@ V = os.path.dirname(os.path.dirname(os.path.abspath(__file__)))
 
 # id -> (category, technique, level text, level note, design ref)
 T = {
-    'C01': ('exploration', 'differential twin executions of the real classes over recorded update/compute histories (exact-regime bit equality)',
+    'C01': ('exploration', 'differential twin executions of the real classes over recorded update/compute histories (exact-regime bit equality); megabyte batches against short ones; the array handed to the caller overwritten before the next compute()',
             'held on the generated histories: split / compute-interleaved / repeated-compute runs of every distinguisher compared with the one-batch run, plus a processed_traces shadow counter on every update',
             'trusts numpy array comparison; E-regime generator guarantees every accumulated sum is exactly representable so zero tolerance is sound; R-regime uses the forward summation bound of DESIGN 4', '5/C01'),
-    'C02': ('exploration', 'event-log monitor on update() (exactly-once, in-order, own-metadata) + differential against the one-shot standalone distinguisher',
+    'C02': ('exploration', 'event-log monitor on update() (exactly-once, in-order, own-metadata) + differential against the one-shot standalone distinguisher; containers looked at (first batch, early-left loop, indexing) before the run',
             'held on the generated (trace set, frame, chain, batch rule, class, run sequence) configurations: every batch the analysis fed to its distinguisher was logged and checked against the trace ids, and results compared bit-for-bit with the one-shot computation',
             'trusts estraces RAM reader slicing and numpy; ids carried in sample column 0 and in a metadata field make the history unambiguous', '5/C02'),
-    'C03': ('exploration', 'exact rational reference (Pearson r, difference of means) on integer-valued inputs, NaN clauses decided in the exact regime',
+    'C03': ('exploration', 'exact rational reference (Pearson r, difference of means) on integer-valued inputs, NaN clauses decided in the exact regime and for constant words / empty bit classes under inexact integer sums; fractional (power-of-two scaled) intermediate values',
             'held on the generated inputs against python-integer/Fraction statistics with a condition-number based rounding bound; layout checked entry by entry',
             'trusts python integers/fractions; float cases judged inside the rounding envelope of DESIGN 4 only', '5/C03'),
-    'C04': ('exploration', 'exact rational reference for F / NICV / SNR by value classes + superset-class metamorphic twin, both kernels forced through the hook',
+    'C04': ('exploration', 'exact rational reference for F / NICV / SNR by value classes + superset-class metamorphic twin, both kernels forced through the hook; up to 2048 intermediate words with batches of thousands of traces',
             'held on the generated inputs against the definitions evaluated in exact arithmetic, including empty / single / one-trace classes and NaN clauses',
             'trusts python fractions; kernel forced via the SCARED_VERIF hook so that both accumulation strategies are exercised', '5/C04'),
-    'C05': ('exploration', 'independent FIPS-197 reference recording every state; all stop points x key sizes x directions x broadcasting shapes x memory layouts x byte orders; read-only inputs; call histories on shared buffers with retained results re-checked; two concurrent callers',
+    'C05': ('exploration', 'independent FIPS-197 reference recording every state; all stop points x key sizes x directions x broadcasting shapes x memory layouts x byte orders; read-only inputs; call histories on shared buffers with retained results re-checked; two concurrent callers; primitives on 16/32/64-bit typed states; after_step without at_round',
             'held at every (round, step, direction, key size, shape) stop point on structured and random keys/blocks; primitives exhaustively per byte',
             'trusts the independent reference (self-tested against FIPS-197 vectors and pycryptodome at start; failure = inconclusive)', '5/C05'),
     'C06': ('exploration', 'independent FIPS 46-3 reference recording every round value; all stop points x key forms x directions x shapes x memory layouts; class-level round templates digest-monitored; call histories on shared buffers with retained results re-checked; two concurrent callers',
             'held at every (des pass, round, step, direction) stop point for DES/TDES2/TDES3 master and expanded keys; primitives exhaustively',
             'trusts the independent reference (self-tested against published vectors and pycryptodome); the step map is fixed in DESIGN 5/C06', '5/C06'),
-    'C07': ('exploration', 'reference-cipher oracle per guess column (a real key is constructed for every guess) + slicing twins (words / guesses in any order, as many guesses as traces) + retained-result and same-batch family histories',
+    'C07': ('exploration', 'reference-cipher oracle per guess column (a real key is constructed for every guess) + slicing twins (words / guesses in any order, as many guesses as traces) + retained-result and same-batch family histories + single calls on 1025-5000 traces judged row by row + four concurrent callers per cipher',
             'held for all ready-made selection functions of both namespaces on random keys / data, every guess column compared with a real cipher state',
             'trusts the independent references of C05/C06', '5/C07'),
-    'C08': ('exploration', 'public-state recorder on process()/run() + prefix twin attacks + trace specification on convergence points',
+    'C08': ('exploration', 'public-state recorder on process()/run() + prefix twin attacks + trace specification on convergence points; refused runs between accepted runs',
             'held on the generated (class, N, step, batch size, run sequence) configurations: every convergence column equals a fresh attack on its prefix (bit-exact regime)',
             'points are recovered from processed_traces and the number of columns observed at batch boundaries only', '5/C08'),
-    'C09': ('exploration', 'exact Welch oracle + per-thread event log from an in-thread preprocess spy, delay/yield/fault injection, interleaving signatures counted',
+    'C09': ('exploration', 'exact Welch oracle + per-thread event log from an in-thread preprocess spy, delay/yield/fault injection, interleaving signatures counted; traces in 1e-9 ... 1e4 units',
             'held on the generated set pairs / batch sizes / schedules; both accumulator threads observed overlapping; injected thread failures re-raised',
             'only interleavings produced by the OS, injected delays and sys.monitoring yield injection are seen; their number is reported', '5/C09'),
-    'C10': ('exploration', 'independent key-schedule references; every (key size, col_in, col_out) window; every DES round / interrupt point; key batch layouts and dtypes; random call histories on shared buffers',
+    'C10': ('exploration', 'independent key-schedule references; every (key size, col_in, col_out) window; every DES round / interrupt point; key batch layouts, dtypes and row structures (palindromic, all-equal, runs); DES weak / semi-weak keys; random call histories on shared buffers with retained results re-checked',
             'held on every AES expansion triple and every DES round on structured + random keys; master key recovered from every round key',
             'trusts the independent references', '5/C10'),
-    'C11': ('exploration', 'kernel-choice hook (dictate + record) differential, numba thread-count sweep, interpreter-mode kernel sanitizer (bounds, negative index, prange write-set race monitor)',
+    'C11': ('exploration', 'kernel-choice hook (dictate + record) differential, numba thread-count sweep, interpreter-mode kernel sanitizer (bounds, negative index, prange write-set race monitor); results read between forced batches; t-test accumulator objects under thread counts',
             'held for all kernel sequences up to 6 batches and the thread counts swept; 0 prange conflicts on the monitored kernels',
             'race monitor runs the kernels\' python source, not the emitted machine code; JIT-vs-interpreter differential links the two', '5/C11'),
-    'C12': ('exploration', 'metamorphic twins (permutation / superset / undeclared values) + by-value exact oracles; hostile values isolated in child processes (crash = violation)',
+    'C12': ('exploration', 'metamorphic twins (permutation / superset / undeclared values) + by-value exact oracles; hostile values isolated in child processes (crash = violation); class lists of up to 131072 entries; look-alike class arrays in one process; gapped classes in template-DPA matching',
             'held on the generated class lists and data over whole dtype ranges; no crash observed',
             'class values within [0, 2^17); undeclared hypothesis values in template matching are not judged', '5/C12'),
-    'C13': ('exploration', 'joint-histogram oracle with exact edge comparisons; interpreter-mode bounds sanitizer on the MIA kernel; edge-list validation sweep',
+    'C13': ('exploration', 'joint-histogram oracle with exact edge comparisons; interpreter-mode bounds sanitizer on the MIA kernel; edge-list validation sweep (non-finite, far-from-zero, narrow, decreasing ranges); batches of mixed sample types',
             'held on the generated traces / edges (samples on, one ulp around and outside every edge); every non-uniform list refused, every linspace/arange list accepted',
             'only clearly uniform / clearly non-uniform edge lists are generated (tolerance of the validation not second-guessed)', '5/C13'),
-    'C14': ('exploration', 'exact rational class means / pooled covariance, float64 Mahalanobis oracle mapped by class value; state recorder on build/match',
+    'C14': ('exploration', 'exact rational class means / pooled covariance, float64 Mahalanobis oracle mapped by class value; state recorder on build/match; empty and single-trace classes, singular covariance, second build()',
             'held on the generated build / match sets for both template attacks, both kernels forced',
             'covariance of classes with < 2 traces is not judged; scores compared within a conditioning-based tolerance', '5/C14'),
-    'C15': ('exploration', 'python bit_count / shift / naive NaN-skipping reducers; exhaustive 8/16-bit sub-spaces; wide saturated word groups; long axes with NaN windows; model instance reuse with retained results; read-only inputs',
+    'C15': ('exploration', 'python bit_count / shift / naive NaN-skipping reducers; exhaustive 8/16-bit sub-spaces; wide saturated word groups; long axes with NaN windows; model instance reuse with retained results; read-only inputs; infinite entries; other byte order',
             'exhaustive for uint8/uint16 popcount and Monobit, per-lane exhaustive for 32/64-bit, sampled shapes/axes/nb_words and NaN patterns',
             'trusts python integer arithmetic', '5/C15'),
-    'C16': ('fault_enumeration', 'twin execution with one rejected call inserted at every position, every rejection kind (17) x every distinguisher, automatic class sets, analysis-level process()/run() refusals with convergence traces observed',
+    'C16': ('fault_enumeration', 'twin execution with one rejected call inserted at every position, every rejection kind (19, incl. data-dependent refusals in the last rows of 33000-70000-trace batches) x every distinguisher, automatic class sets and automatic MIA window, analysis-level process()/run() refusals with convergence traces observed',
             'every (subject, fault kind, position <= 4 batches) enumerated; later results and counts equal the twin that never saw the rejected call',
             'only calls that raise are judged; faults inside _update after accumulation started are out of scope', '5/C16'),
-    'C17': ('exploration', 'end-to-end attack on leakage simulated from the reference cipher; rank of the expected key with margin recorded',
+    'C17': ('exploration', 'end-to-end attack on leakage simulated from the reference cipher; rank of the expected key with margin recorded; Hamming-weight, bit and identity models',
             'true key ranked first for every attack class x selection function x batch size generated; near-ties counted inconclusive',
             'statistical: fixed wide margin (noise +-0.5, n = 1200..1500); XOR-only targets only with CPA', '5/C17'),
-    'C18': ('exploration', 'naive pair enumeration in exact integer arithmetic rounded once; naive DFT / circular correlation; row-independence twins; second-call twins on the same preprocess object with retained outputs',
+    'C18': ('exploration', 'naive pair enumeration in exact integer arithmetic rounded once; naive DFT / circular correlation; row-independence twins; second-call twins on the same preprocess object with retained outputs; other preprocess objects built afterwards; traces in the other byte order',
             'held on the generated dtype / frame / mode / distance configurations at dtype extremes',
             'Xcorr on odd frame lengths is a known finding pinned by two stable tests', '5/C18'),
-    'C19': ('exploration', 'exact rational window statistics, naive scanners, three-clause peak specification evaluated on the returned set; exhaustive small signals',
+    'C19': ('exploration', 'exact rational window statistics, naive scanners, three-clause peak specification evaluated on the returned set; exhaustive small signals; call histories on buffers refilled in place (reference calls after the history); thousands of extraction indexes',
             'exhaustive over all signals of length <= 6 (quick) / 7 (thorough) over {0..3} x distances x heights; sampled elsewhere',
             'kurtosis / skew on zero-variance windows not judged', '5/C19'),
-    'C20': ('fault_enumeration', 'sequential reference model over the recorded call log of the user function; all 4^N accept/raise/None patterns; failure runs at the warning thresholds; check() before run(); pre-existing output; text metadata',
+    'C20': ('fault_enumeration', 'sequential reference model over the recorded call log of the user function; all 4^N accept/raise/None patterns; failure runs at the warning thresholds; check() before run(); pre-existing output; text metadata; seven exception classes raised by the user function; results in the other byte order',
             'every pattern over {accept, ResynchroError, Exception, None} for N <= 4 (quick) / 5 (thorough) + long random patterns',
             'ETS output read back through estraces', '5/C20'),
 }
